@@ -146,6 +146,8 @@ fn exec<S: Status>(tabs: &mut Vec<RawTable<Elem, S>>, c: &mut Value) {
             c["empty"] = json!(tabs[t].is_empty());
         }
         "clear" => tabs[t].clear(),
+        "clear_nd" => tabs[t].clear_no_drop(),
+        "reset_nd" => tabs[t].reset_no_drop(),
         "reserve" => tabs[t].reserve(u(c, "n") as usize),
         "clone" => {
             let dst = u(c, "u") as usize;
@@ -350,7 +352,7 @@ fn replay(args: &Args) {
                 "insert" => json!({"ev": "insert", "t": t, "k": k, "v": v, "h": hs()}),
                 "find" | "get" | "remove" => json!({"ev": op, "t": t, "k": k, "h": hs()}),
                 "retain" => json!({"ev": "retain", "t": t, "p": o[5]}),
-                "drain" | "into_iter" | "iter" | "len" | "clear" => json!({"ev": op, "t": t}),
+                "drain" | "into_iter" | "iter" | "len" | "clear" | "clear_nd" | "reset_nd" => json!({"ev": op, "t": t}),
                 "reserve" => json!({"ev": "reserve", "t": t, "n": n}),
                 "clone" => json!({"ev": "clone", "t": t, "u": dst}),
                 x => panic!("harness: unknown model call {x}"),
@@ -480,7 +482,8 @@ fn random(args: &Args) {
             if ok {
                 match rng.below(9) {
                     0 | 8 => {
-                        call!(json!({"ev": "clear", "t": cur}));
+                        let which = ["clear", "clear_nd", "reset_nd"][rng.below(3)];
+                        call!(json!({"ev": which, "t": cur}));
                         present.clear();
                     }
                     1 => {
@@ -594,7 +597,10 @@ fn random(args: &Args) {
                     let take = rng.below(6);
                     call!(json!({"ev": "drain_partial", "t": cur, "take": take}));
                 }
-                5 => call!(json!({"ev": "clear", "t": cur})),
+                5 => {
+                    let which = ["clear", "clear_nd", "reset_nd"][rng.below(3)];
+                    call!(json!({"ev": which, "t": cur}))
+                }
                 6 | 7 => {
                     call!(json!({"ev": "clone", "t": cur, "u": 3 - cur}));
                     other_live = true;
